@@ -154,6 +154,7 @@ class Scenario:
     isinstance_shim = ()
     max_paths = 4000
     max_decisions = 400
+    max_seconds = 1500  # wall-clock budget of one scenario's exploration; exceeding it is a reported bound hit (exit 2), never a pass
     timeout_ms = 30000
     validate = True
     margin = MARGIN  # a difference that is always below margin*(1+|oracle|) is a rounding matter, not a violation
@@ -296,7 +297,7 @@ def _short(t, n=160):
 def run_scenario(sc, do_validate=True):
     """Explore all paths of one scenario; discharge obligations; validate; replay counterexamples."""
     t_start = time.time()
-    eng = S.Engine(max_decisions=sc.max_decisions, max_paths=sc.max_paths, timeout_ms=sc.timeout_ms)
+    eng = S.Engine(max_decisions=sc.max_decisions, max_paths=sc.max_paths, timeout_ms=sc.timeout_ms, max_seconds=sc.max_seconds)
     res = {
         "key": sc.key,
         "paths": 0,
